@@ -25,6 +25,7 @@ import TdVerif.Lemmas.C08Shape2
 import TdVerif.Lemmas.C08Squeeze2
 import TdVerif.Lemmas.C08View
 import TdVerif.Lemmas.C08UpdateAt
+import TdVerif.Lemmas.C08Mask2Span
 import TdVerif.Lemmas.C08Out
 import TdVerif.Lemmas.C08Out2
 import TdVerif.Lemmas.C08Out3
@@ -218,6 +219,32 @@ theorem getitem_refines_stage3_mask1 [Inhabited α] (L : Lazy α) (b : Shape) (k
     (r : LRes α) (hr : lazyGetCore L ix = some r)
     (d : TD α) (hd : (absL L).index ix = some d) : ReadOK r d :=
   getitem_refines_mask1 L b keys feat hU hne0 ix hp hne hadv m hitem r hr d hd
+
+/-- **Reads, stage 5: a rank-2 mask SPANNING the stack dim** (`lazy[pre…, mask2d, post…]`, the mask
+covering the dim just before the stack dim and the stack dim; ints / slices / None around it).
+`__getitem__` reads, for every position `i` of the dim the mask starts at, the lazy stack
+`self[(:,)*mask_dim + (i,)]` (its stack dim one to the left) indexed with row `i` of the mask — a
+rank-1 mask on ITS stack dim, stage 3 — and concatenates the results along
+`mask_loc - num_single` (`_lazy_cat` along the stack dim: the kept members, row after row).  This
+materialises to `dense[ix]`.  (`hsome`: the mask keeps something; a mask that keeps nothing returns
+an empty stack, which only has a batch size.) -/
+theorem getitem_refines_stage5_mask2_spanning [Inhabited α] (L : Lazy α) (b : Shape) (keys : List String)
+    (feat : String → Shape) (hU : Uniform L b keys feat) (hne0 : L.members ≠ []) (pre post : List Ix) (m : T Bool)
+    (hpre : BasicPre pre) (hpd : preDims pre + 1 = L.sd) (hpost : Basic post)
+    (hm : m.shape = [at0 b (preDims pre), L.members.length]) (hsome : 0 < (nonzero m).length)
+    (r : LRes α) (hr : lazyGetCoreM L (pre ++ .mask m :: post) = some r)
+    (d : TD α) (hd : (absL L).index (pre ++ .mask m :: post) = some d) :
+    absR r ≈ d :=
+  getitem_refines_mask2_span L b keys feat hU hne0 pre post m hpre hpd hpost hm hsome r hr d hd
+
+/-- **The index spec never reads out of bounds**: whenever the torch index spec accepts an index
+(`idxShape ix sh = some s`: ints in range, slices with a positive step, None, integer tensors with
+valid entries, boolean masks of the right shape), every in-bounds coordinate of the result is read
+from an in-bounds coordinate of the indexed tensor.  (Consequence `idxT_congr`: indexing respects
+equality on the meaningful part — used to compose reads.) -/
+theorem index_spec_in_bounds (ix : List Ix) (sh s : Shape) (c : List Nat) (h : idxShape ix sh = some s)
+    (hc : InB c s) : InB (idxCoord ix sh c) sh :=
+  idxCoord_inB ix sh s c h hc
 
 /-- **Reads, every proved stage, with Ellipsis.**  `lazy[index]` and `dense[index]` expand
 Ellipsis identically (`convert_ellipsis_to_idx` on the batch size); then for every index of the
@@ -973,6 +1000,25 @@ example : (match lazyExpand ⟨[exM 0], 1⟩ [2, 2, 3] with
 -- stage 4: a rank-2 mask on the stack dim of a stack along dim 0 (batch [2, 2]): rows [T, F] and [T, T]
 example : (match lazyGetCoreM (⟨[exM 0, exM 1], 0⟩ : Lazy Int) [.mask (T.ofList [2, 2] [true, false, true, true])] with
     | some r => ((absR r).batch, ((absR r).leaf "a").toList) | none => ([], [])) = ([3], [0, 10, 11]) := by decide
+-- stage 5: a rank-2 mask SPANNING the stack dim of `exL` (batch [2, 3], stack dim 1): rows [T, F, T] and [F, F, T]
+example : (match lazyGetCoreM exL [.mask (T.ofList [2, 3] [true, false, true, false, false, true])] with
+    | some r => ((absR r).batch, ((absR r).leaf "a").toList) | none => ([], [])) = ([3], [0, 20, 21]) := by decide
+example : (((absL exL).index [.mask (T.ofList [2, 3] [true, false, true, false, false, true])]).map
+    fun d => (d.batch, (d.leaf "a").toList)) = some ([3], [0, 20, 21]) := by decide
+example : BasicPre ([] : List Ix) ∧ preDims ([] : List Ix) + 1 = exL.sd ∧ Basic ([] : List Ix) := by
+  refine ⟨trivial, rfl, ?_⟩
+  intro it hit; simp at hit
+-- view / flatten: `exL.view(6)` = `exL.flatten(0, 1)`: 6 pieces (plain tensordicts) stacked along 0
+example : (match lazyView exL [6] with
+    | some (.lazy i ps) => (i, ps.length, (absR2 (.lazy i ps)).batch, ((absR2 (.lazy i ps)).leaf "a").toList)
+    | _ => (9, 0, [], [])) = (0, 6, [6], [0, 10, 20, 1, 11, 21]) := by decide
+example : (match lazyFlatten exL 0 (-1) with
+    | some (.lazy i ps) => (i, ps.length, ((absR2 (.lazy i ps)).leaf "a").toList)
+    | _ => (9, 0, [])) = (0, 6, [0, 10, 20, 1, 11, 21]) := by decide
+example : (((absL exL).leaf "a").flattenAt 0 2).toList = [0, 10, 20, 1, 11, 21] := by decide
+-- update_at_: `exL.update_at_(v, (1,))` with `v` of batch [3] writes row 1 of the dense stack
+example : (match lazyUpdateAt exL [.int 1] { batch := [3], keys := ["a"], leaf := fun _ => T.arange 500 [3] } with
+    | some L' => ((absL L').leaf "a").toList | none => []) = [0, 10, 20, 500, 501, 502] := by decide
 -- stack of stacks: two copies of `exL` stacked at dim 0 (batch [2, 2, 3]); `lol[1, :, 2]` is
 -- `inner_1[:, 2]` = member 2 of the second inner stack
 def exL2 : Lazy2 Int := ⟨[exL, exL], 0⟩
